@@ -813,9 +813,15 @@ func (c *updater) buildBackendProtocol(d *backData) {
 		var crtFile convtypes.CrtFile
 		namespace, name, err := crt.NamespacedName()
 		if err == nil {
+			// the namespace of the source is the default one, so the cache can
+			// deny a secret from another namespace; globals do not have a source
+			var defaultNamespace string
+			if crt.Source != nil {
+				defaultNamespace = crt.Source.Namespace
+			}
 			crtFile, err = c.cache.GetTLSSecretPath(
-				namespace,
-				name,
+				defaultNamespace,
+				namespace+"/"+name,
 				[]convtypes.TrackingRef{{Context: convtypes.ResourceHABackend, UniqueName: d.backend.ID}},
 			)
 		}
@@ -851,9 +857,13 @@ func (c *updater) buildBackendProtocol(d *backData) {
 		var caFile, crlFile convtypes.File
 		namespace, name, err := ca.NamespacedName()
 		if err == nil {
+			var defaultNamespace string
+			if ca.Source != nil {
+				defaultNamespace = ca.Source.Namespace
+			}
 			caFile, crlFile, err = c.cache.GetCASecretPath(
-				namespace,
-				name,
+				defaultNamespace,
+				namespace+"/"+name,
 				[]convtypes.TrackingRef{{Context: convtypes.ResourceHABackend, UniqueName: d.backend.ID}},
 			)
 		}
